@@ -14,6 +14,16 @@ def main():
     from pharmpy.modeling import load_dataset
     from pharmpy.workflows.hashing import DatasetHash, ModelHash
     specs = json.load(sys.stdin)
+    if isinstance(specs, dict) and 'frames' in specs:
+        import os
+        res = []
+        for fs in specs['frames']:
+            try:
+                res.append({'hash': str(DatasetHash(c12_gen.build_frame(fs)))})
+            except Exception as e:
+                res.append({'error': f'{type(e).__name__}: {e}'})
+        print(json.dumps({'hashseed': os.environ.get('PYTHONHASHSEED'), 'results': res}))
+        return
     out = []
     for spec in specs:
         try:
